@@ -200,7 +200,7 @@ func checkC06(r *Report) {
 func checkC07(r *Report) {
 	p := loadResolve("", true)
 	pathTrusted(r)
-	r.Explain = "Path rules on the SSA control-flow graph of the Maven resolver's traversal. C07.a LOOP-ACCOUNT on the loop over a version's imports that calls findMatch: every path of an iteration ends in AddEdge, AddError or return, except two documented skips attached to the true edge of their guard: the artifact is excluded on this path (isExcluded) and scope == \"provided\" in multi-registry mode. C07.b PAIR: the AddNode in the loop is followed by an AddEdge to that node. C07.c GRAPH-WRITERS as for npm. C07.d RETRY-BOUND: the retry loop on incompatible requirements compares a counter that is incremented once per iteration with the constant maxRetries. C07.e NODE-REGISTERED: every table that records the id of a node added in the loop on some path records it on every continuing path, so the de-duplication tables that enforce one version per artifact stay in step with the graph. C07.f INHERITED-SET: the exclusion set stored in a traversal node is shared by reference with the nodes that inherit it and is therefore never written in place (a new node's set is built in the dependency's own freshly parsed map). C07.g INCOMPATIBLE-FIRST: inside the loop every AddEdge/AddNode for the match is behind the test 'this artifact is already resolved' (which raises the incompatible-requirements retry), except the edge to an exactly known artifact+version. Not decided: nearest-wins, range satisfaction, management override."
+	r.Explain = "Path rules on the SSA control-flow graph of the Maven resolver's traversal. C07.a LOOP-ACCOUNT on the loop over a version's imports that calls findMatch: every path of an iteration ends in AddEdge, AddError or return, except two documented skips attached to the true edge of their guard: the artifact is excluded on this path (isExcluded) and scope == \"provided\" in multi-registry mode. C07.b PAIR: the AddNode in the loop is followed by an AddEdge to that node. C07.c GRAPH-WRITERS as for npm. C07.d RETRY-BOUND: the retry loop on incompatible requirements compares a counter that is incremented once per iteration with the constant maxRetries. C07.e NODE-REGISTERED: every table that records the id of a node added in the loop on some path records it on every continuing path, so the de-duplication tables that enforce one version per artifact stay in step with the graph. C07.f INHERITED-SET: the exclusion set stored in a traversal node is shared by reference with the nodes that inherit it and is therefore never written in place (a new node's set is built in the dependency's own freshly parsed map). C07.g INCOMPATIBLE-FIRST: inside the loop every AddEdge/AddNode for the match is behind the test 'this artifact is already resolved' (which raises the incompatible-requirements retry), except the edge to an exactly known artifact+version. C07.h EXCLUDED-INERT: every table update and graph write of the loop lies on the not-excluded side of the isExcluded test, so an excluded declaration leaves no requirement, node or edge behind. Not decided: nearest-wins, range satisfaction, management override."
 	fn := p.lookupFn("(*resolve/maven.resolver).resolve")
 	if fn == nil {
 		r.bad("C07.a/LOOP-ACCOUNT", "maven resolve", "", "function (*resolve/maven.resolver).resolve not found")
@@ -248,6 +248,81 @@ func checkC07(r *Report) {
 	nodeRegisteredRule(r, p, "C07.e/NODE-REGISTERED", fn, l)
 	inheritedSetRule(r, p, e, "C07.f/INHERITED-SET")
 	incompatibleFirstRule(r, p, "C07.g/INCOMPATIBLE-FIRST", fn, l)
+	skippedInertRule(r, p, "C07.h/EXCLUDED-INERT", fn, l, exempt[0].match, "excluded")
+}
+
+// skippedInertRule: a declaration that the loop skips (here: excluded on this
+// path) must leave no trace: every update of a traversal table and every graph
+// write of the loop lies on the not-skipped side of the test, so a skipped
+// declaration cannot take part in mediation through what it recorded.
+func skippedInertRule(r *Report, p *Prog, rule string, fn *ssa.Function, l *loop, isSkipTest func(ssa.Value) bool, what string) {
+	type guard struct{ b, skip *ssa.BasicBlock }
+	var guards []guard
+	for b := range l.body {
+		ifi, ok := b.Instrs[len(b.Instrs)-1].(*ssa.If)
+		if !ok {
+			continue
+		}
+		cond, neg := ifi.Cond, false
+		if u, ok := cond.(*ssa.UnOp); ok && u.Op == token.NOT {
+			cond, neg = u.X, true
+		}
+		// the err != nil test of the same call is not the skip test
+		if bo, ok := cond.(*ssa.BinOp); ok && (bo.Op == token.NEQ || bo.Op == token.EQL) {
+			if c, ok := bo.Y.(*ssa.Const); ok && c.Value == nil {
+				continue
+			}
+		}
+		if !isSkipTest(cond) {
+			continue
+		}
+		skip := b.Succs[0]
+		if neg {
+			skip = b.Succs[1]
+		}
+		guards = append(guards, guard{b, skip})
+	}
+	if len(guards) == 0 {
+		r.bad(rule, fnKey(fn)+": "+what+" test", p.pos(fn.Pos()), "the test that skips a declaration was not found in the dependency loop: anchor lost")
+		return
+	}
+	n := 0
+	seen := map[string]int{}
+	for _, b := range fn.Blocks { // block order, so that the #n in keys is stable
+		if !l.body[b] {
+			continue
+		}
+		for _, in := range b.Instrs {
+			what2 := ""
+			switch x := in.(type) {
+			case *ssa.MapUpdate:
+				what2 = "update of a " + short(x.Map.Type().String()) + " table"
+			case ssa.CallInstruction:
+				switch staticCalleeName(x) {
+				case "(*resolve.Graph).AddEdge", "(*resolve.Graph).AddNode", "(*resolve.Graph).AddError":
+					what2 = "call of " + staticCalleeName(x)
+				}
+			}
+			if what2 == "" {
+				continue
+			}
+			n++
+			seen[what2]++
+			key := fmt.Sprintf("%s: %s #%d", fnKey(fn), what2, seen[what2])
+			okG := false
+			for _, g := range guards {
+				if guardedBy(g.b, g.skip, b) {
+					okG = true
+				}
+			}
+			if okG {
+				r.ok(rule, key, p.pos(in.Pos()), "on the not-"+what+" side of the test")
+			} else {
+				r.bad(rule, key, p.pos(in.Pos()), "reached by a declaration that is "+what+" on this path: what it records here (its requirement, a node, an edge) takes part in mediation although Maven prunes such declarations before conflict resolution")
+			}
+		}
+	}
+	r.floor(rule, "table updates and graph writes in the dependency loop", n, 6)
 }
 
 // incompatibleFirstRule: inside the dependency loop, the test "this artifact is
@@ -259,7 +334,11 @@ func checkC07(r *Report) {
 func incompatibleFirstRule(r *Report, p *Prog, rule string, fn *ssa.Function, l *loop) {
 	var guard *ssa.BasicBlock
 	var guardBad *ssa.BasicBlock
-	lookupOn := func(c ssa.Value, typeSuffix string) bool {
+	// the two tables are recognised by their shape, not by the names of the
+	// resolver's private key types: "resolved" is a set keyed by a struct
+	// (map[K]bool), "known" maps the resolver's own struct key to a resolve.NodeID.
+	const resolvedSet, knownNodes = "set", "nodes"
+	lookupOn := func(c ssa.Value, kind string) bool {
 		return condDerives(c, 0, func(v ssa.Value) bool {
 			var lk *ssa.Lookup
 			switch x := v.(type) {
@@ -268,12 +347,32 @@ func incompatibleFirstRule(r *Report, p *Prog, rule string, fn *ssa.Function, l 
 			case *ssa.Extract:
 				lk, _ = x.Tuple.(*ssa.Lookup)
 			}
-			return lk != nil && strings.HasSuffix(lk.X.Type().String(), typeSuffix)
+			if lk == nil {
+				return false
+			}
+			mt, ok := lk.X.Type().Underlying().(*types.Map)
+			if !ok {
+				return false
+			}
+			if _, ok := mt.Key().Underlying().(*types.Struct); !ok {
+				return false
+			}
+			switch kind {
+			case resolvedSet:
+				b, ok := mt.Elem().Underlying().(*types.Basic)
+				return ok && b.Kind() == types.Bool
+			case knownNodes:
+				// keyed by the resolver's own artifact+version key (declared in the
+				// resolver's package), not by the graph-level resolve.VersionKey
+				nk, ok := mt.Key().(*types.Named)
+				return ok && nk.Obj().Pkg() == fn.Pkg.Pkg && strings.HasSuffix(mt.Elem().String(), "deps.dev/util/resolve.NodeID")
+			}
+			return false
 		})
 	}
 	for b := range l.body {
 		ifi, ok := b.Instrs[len(b.Instrs)-1].(*ssa.If)
-		if !ok || !lookupOn(ifi.Cond, "map[deps.dev/util/resolve/maven.packageKey]bool") {
+		if !ok || !lookupOn(ifi.Cond, resolvedSet) {
 			continue
 		}
 		// the hit side must leave with the incompatible error
@@ -303,7 +402,7 @@ func incompatibleFirstRule(r *Report, p *Prog, rule string, fn *ssa.Function, l 
 			exempt := false
 			for d := range l.body {
 				ifi, ok := d.Instrs[len(d.Instrs)-1].(*ssa.If)
-				if ok && lookupOn(ifi.Cond, "map[deps.dev/util/resolve/maven.versionKey]deps.dev/util/resolve.NodeID") && d.Succs[0].Dominates(b) && len(d.Succs[0].Preds) == 1 {
+				if ok && lookupOn(ifi.Cond, knownNodes) && d.Succs[0].Dominates(b) && len(d.Succs[0].Preds) == 1 {
 					exempt = true
 				}
 			}
